@@ -132,7 +132,7 @@ inductive Grown : List Item → List Item → Prop where
 
 theorem Grown.refl : ∀ (l : List Item), Grown l l
   | [] => .nil
-  | x :: xs => .cons ⟨rfl, Sub.refl _⟩ (Grown.refl xs)
+  | _ :: xs => .cons ⟨rfl, Sub.refl _⟩ (Grown.refl xs)
 
 theorem Grown.cores {old new : List Item} (h : Grown old new) : new.map core = old.map core := by
   induction h with
